@@ -27,14 +27,12 @@ CASE, JUDGE = "c03_case", "c16_judge"
 
 
 def shape(j):
-    exp = j.get("oracle") or {}
-    if j["load"] == "err" and exp.get("ok"):
-        return "load_fails_though_every_selected_template_resolves"
-    if j["load"] == "ok" and exp.get("ok") is False:
-        return "missing_error"
+    """shape of a failing case (from what was observed only, so that it is stable under replay)"""
+    if j["load"] == "err":
+        return "load_fails"
     if j["load"] in ("panic", "buildpanic"):
         return "panic"
-    return "wrong_value"
+    return "wrong_result_after_successful_load"
 
 
 def features(j):
@@ -93,7 +91,9 @@ def run(ctx):
     cr = gl.corpus_run(ctx, "C16")
     if cr:
         runs.insert(1, cr)
+    ctx.log("harness built")
     terms, jsons, err = vlib.harness_cases(ctx, binp, runs)
+    ctx.log("harness ran: %d cases" % len(jsons))
     if err:
         ctx.report({"unchecked": "harness run", "detail": err}, {"kind": "harness"}, failing_input=False)
         return
@@ -114,7 +114,7 @@ def run(ctx):
             ctx.report({"unchecked": "generator's by-construction expectation = load_full_spec",
                         "case": view(j)}, {"kind": "oracle"}, failing_input=False)
             continue
-        if ctx.nreplay < 4:
+        if ctx.nreplay < 3:
             sh = shape(j)
             _, mj = gl.minimise(ctx, binp, HEADER, CASE, JUDGE, to_input(j), code, variants, size,
                                 keep=lambda c: shape(c) == sh)
